@@ -60,3 +60,15 @@ SPECS["C11"] = {
     "assumptions": ["contracts: SmallVec::{is_empty,deref}, slice::iter, Iterator::{map,collect::<Result<Vec<T>,E>>}, <T as NumCast>::from = range "
                     "check + truncation (num-traits doc), Option::ok_or_else, opaque error constructors"],
 }
+
+SPECS["C22"] = {
+    "parts": [{"engine": "m", "module": "c22"}],
+    "bounds": "formula equalities: ALL f64 slope/intercept/x (rescale) and all finite x/center/width/y_max (window functions), no bound; "
+              "sample interpretation: bits stored 1-16, both signednesses, all indices; range/monotonicity: sampled parameter sets (5 fixed + "
+              "seeded random) x ALL stored values of the given bits stored, output types u8/u16",
+    "outside": "exp() is an uninterpreted function (sigmoid checked modulo exp); explicit VOI LUT tables (VoiLutTransform); bits stored 17-32; "
+               "monotonicity for all-symbolic parameters (z3 unknown after 120 s, DESIGN §3 C22); the table construction loop itself "
+               "((0..size).map(f).collect() is taken as entry i = f(i))",
+    "assumptions": ["IEEE-754 round-to-nearest-even for +,-,*,/ as emitted by rustc; f64::max per std docs (NaN-ignoring); NumCast f64->int = range check + truncation",
+                    "contracts: usize::next_power_of_two, <T as NumCast>::from::<f64>, OptionExt::context, Into<u32>, Vec index"],
+}
